@@ -16,6 +16,8 @@
                     Fixed = rejects len mod 8 <> 0 or len < 16          (C07 aeskw fix)
    [cbchmac_open v] Original = no block-multiple check (CryptBlocks panics on a valid tag),
                     Fixed = rejects (len - tag) mod 16 <> 0            (C07 aescbcaead fix)
+   [kw_wrap v]      Original = empty key data wraps to the bare 8-byte IV (which Unwrap refuses),
+                    Fixed = empty key data is an error                 (C03 fix, aeskw.Wrap)
    [ec_curve_ok v]  Original = ES256/384/512 accept any EC key, Fixed = curve must match
                                                                         (C03 fix) *)
 From Kit Require Export Lib.Base.
@@ -136,8 +138,9 @@ Section Schemes.
     fold_left (fun st j => kw_unwrap_pass d (n * j) 1 (fst st) (snd st)) kw_js_down st.
 
   (* Wrap(block, cek) *)
-  Definition kw_wrap (key cek : list N) : res (list N) :=
-    if negb (Nat.eqb (len cek mod 8) 0) then Err ErrOther     (* "cek must be in 8-byte blocks" *)
+  Definition kw_wrap (v : variant) (key cek : list N) : res (list N) :=
+    if negb (Nat.eqb (len cek mod 8) 0) || (is_fixed v && Nat.eqb (len cek) 0)
+    then Err ErrOther                                  (* "cek must be in 8-byte blocks [and not empty]" *)
     else
       let n := Nat.div (len cek) 8 in
       let rs := chunks 8 cek in
@@ -282,7 +285,7 @@ Definition aescbcaead_open (v : variant) (k : cbchmac_kind) (c : cbchmac) (nonce
   : res (list N) :=
   cbchmac_open aesD aes_key_ok (aescbcaead_mac k) v c nonce ctt aad.
 
-Definition aeskw_wrap (key cek : list N) : res (list N) := kw_wrap aesE key cek.
+Definition aeskw_wrap (v : variant) (key cek : list N) : res (list N) := kw_wrap aesE v key cek.
 Definition aeskw_unwrap (v : variant) (key c : list N) : res (list N) := kw_unwrap aesD v key c.
 
 Definition opt_res {A} (o : option A) : res A :=
@@ -447,10 +450,10 @@ Definition decrypt_cbchmac (v : variant) (alg : string) (key nonce tag aad ct : 
   end.
 
 (* encryptSymmetricAESKW / decryptSymmetricAESKW: nonce, tag and aad are not looked at *)
-Definition encrypt_kw (alg : string) (key pt : list N) : res (list N * list N) :=
+Definition encrypt_kw (v : variant) (alg : string) (key pt : list N) : res (list N * list N) :=
   if negb (Nat.eqb (len key) (expected_key_size alg)) then Err ErrKeyTypeMismatch
   else if negb (aes_key_ok key) then Err ErrKeyTypeMismatch
-  else match aeskw_wrap key pt with
+  else match aeskw_wrap v key pt with
        | Ok c => Ok (c, [])
        | Err e => Err e
        | Panic => Panic
@@ -481,8 +484,8 @@ Definition decrypt_chacha (x : bool) (key nonce tag aad ct : list N) : res (list
   else opt_res (if x then xchacha20poly1305_open key nonce aad (ct ++ tag)
                 else chacha20poly1305_open key nonce aad (ct ++ tag)).
 
-(* EncryptSymmetric: key kind, then the algorithm switch *)
-Definition encrypt_symmetric (alg : string) (key : keyobj) (nonce aad pt : list N)
+(* EncryptSymmetric: key kind, then the algorithm switch ([v]: variant of aeskw.Wrap) *)
+Definition encrypt_symmetric (v : variant) (alg : string) (key : keyobj) (nonce aad pt : list N)
   : res (list N * list N) :=
   match key with
   | KOct kb =>
@@ -491,7 +494,7 @@ Definition encrypt_symmetric (alg : string) (key : keyobj) (nonce aad pt : list 
       | Some FCbcNoPad => encrypt_cbc alg true kb nonce pt
       | Some FGcm => encrypt_gcm alg kb nonce aad pt
       | Some FCbcHmac => encrypt_cbchmac alg kb nonce aad pt
-      | Some FKw => encrypt_kw alg kb pt
+      | Some FKw => encrypt_kw v alg kb pt
       | Some FChaCha => encrypt_chacha false kb nonce aad pt
       | Some FXChaCha => encrypt_chacha true kb nonce aad pt
       | None => Err ErrUnsupportedAlgorithm
@@ -518,7 +521,7 @@ Definition decrypt_symmetric (vkw vopen : variant) (alg : string) (key : keyobj)
   end.
 
 (* ------------------------------------------------------------------------------------- *)
-(** * The dispatch layer alone: which sentinel (if any) the checks above return, as a
+(** * The dispatch layer alone (current tree): which sentinel (if any) the checks above return, as a
       function of the algorithm name, the key kind and the LENGTHS only.  [None] = every
       check passed and the primitive runs.  (Related to the full functions by
       [C03/Proofs.v: encrypt_symmetric_dispatch, decrypt_symmetric_dispatch].) *)
@@ -557,7 +560,7 @@ Definition dispatch_encrypt (alg : string) (s : shape) : option sentinel :=
         end
     | Some FKw =>
         if negb (Nat.eqb (sh_key s) (expected_key_size alg)) then Some ErrKeyTypeMismatch
-        else if negb (Nat.eqb (sh_data s mod 8) 0) then Some ErrOther
+        else if negb (Nat.eqb (sh_data s mod 8) 0) || Nat.eqb (sh_data s) 0 then Some ErrOther
         else None
     | Some FChaCha =>
         if negb (Nat.eqb (sh_key s) 32) then Some ErrKeyTypeMismatch
@@ -777,9 +780,9 @@ Definition res_map {A B} (f : A -> B) (r : res A) : res B :=
   match r with Ok a => Ok (f a) | Err e => Err e | Panic => Panic end.
 
 (* Encrypt *)
-Definition encrypt_generic (alg : string) (key : keyobj) (nonce aad pt : list N) : res enc_out :=
+Definition encrypt_generic (v : variant) (alg : string) (key : keyobj) (nonce aad pt : list N) : res enc_out :=
   match generic_route alg with
-  | RouteSym => res_map (fun ct => EOBytes (fst ct) (snd ct)) (encrypt_symmetric alg key nonce aad pt)
+  | RouteSym => res_map (fun ct => EOBytes (fst ct) (snd ct)) (encrypt_symmetric v alg key nonce aad pt)
   | RouteAsym => res_map (fun _ => EORandom) (encrypt_public_key alg key (len pt))
   | RouteNone => Err ErrUnsupportedAlgorithm
   end.
